@@ -12,7 +12,8 @@ CORPUS = os.path.join(VERIF, "corpus", "C16.json")
 ASSUMPTIONS = [
     "names (node-label names, edge-label names, explicit ids) are rendered as strings 'L<n>', 'X<n>', 'n<n>', 'd<n>'; the model treats them as naturals",
     "implicit ids (Python id(self)) are numbered in construction order; the harness keeps every Node/Edge alive so that CPython never re-uses an address",
-    "FiniteDomain = its value list; FiniteFactor = its domains and a constant weight tensor (tag); weights are not mutated by the modelled API",
+    "FiniteDomain = its value list; FiniteFactor = its domains and a constant weight tensor (tag, a small natural: exact in float32; a tensor that is not constant is observed as 999, which no model state shows)",
+    "in-place weight updates (UpdWeights) are: every entry := v (physical.fill_, copy_, physical[...] = v, the weights setter with a new tensor, w *= 0 then physical.add_) or every entry *= c (weights *= c, physical.mul_, weights *= PatternedTensor, weights /= 1/c for c = 1, 2, 4); the model ignores the route (via); domains are not mutated in place (no public API)",
     "HRGRule objects are only ever built by the harness immediately before add_rule (their fields are not reassigned); ext= is always given a tuple",
     "calls on a handle of the wrong class are modelled as 'OtherExc' (AttributeError) and generated only for method calls, not for attribute assignment",
 ]
@@ -550,8 +551,9 @@ def run(tier, seed):
         if o.startswith("random"): lens[len(ops) // 10 * 10] = lens.get(len(ops) // 10 * 10, 0) + 1
     samp = [c for c in cases if c[2].startswith("random")]
     cov = dict(evaluations=len(cases), distinct_nontrivial=distinct,
-               rule="operation sequences over the small universe (3 node labels, 4 edge-label names x terminal/nonterminal x arity 0-2, 4 explicit node ids, 3 explicit edge ids, implicit ids, 2 domains, 2 factor tags): corpus of minimised failing sequences first; every sequence of <= 3 calls from a reduced universe of %d calls after 2 set-up calls (2 set-ups: Graph+HRG, FactorGraph+FGG; in the quick tier the second set-up only for sequences containing a copy); random sequences of 1-40 calls, ~30%% of calls designed to raise (re-used node ids, clashing labels, wrong types, duplicate ids, unmapped domains, ...), 60%% of the sequences steering clear of the one known well-formedness finding (mutating a graph used as a rule's rhs).  After EVERY call the full observable state of every live object and the result / exception kind are compared with the model and judged by wf_b, the atomicity oracle and the frame / copy oracle.  non-trivial = >= 3 calls, some graph ends up with a node, and some call raised or copied; distinct by the call sequence" % len(reduced_universe(tier)),
-               exhaustive_part="%d sequences" % n_exh, corpus_cases=n_corpus, random_sequences=n_rand,
+               rule="operation sequences over the small universe (3 node labels, 4 edge-label names x terminal/nonterminal x arity 0-2, 4 explicit node ids, 3 explicit edge ids, implicit ids, 2 domains, 2 factor tags, in-place weight updates fill(v in %s) / mul(c in %s) by 9 Python routes): corpus of minimised failing sequences first; every sequence of <= 3 calls from a reduced universe of %d calls after 2 set-up calls (2 set-ups: Graph+HRG, FactorGraph+FGG; in the quick tier the second set-up only for sequences containing a copy); every history of <= 3 calls (at least one in-place weight update) from %d calls {Copy of the FactorGraph / of the FGG, weight update of the original, of the first and of the second copy by several routes incl. the setter} after a set-up that gives a FactorGraph and an FGG (with a rule) a domain and a factor each; random sequences of 1-40 calls, ~30%% of calls designed to raise (re-used node ids, clashing labels, wrong types, duplicate ids, unmapped domains, weight updates of unbound names / of objects without factors, ...), 60%% of the sequences steering clear of the one known well-formedness finding (mutating a graph used as a rule's rhs); every third random sequence is weights-focused (60%% of its calls build objects with factors, copy them and update the weights of copies and originals in place, preferring objects that have a copy; an update always changes the weights except 10%% no-op updates).  After EVERY call the full observable state of every live object and the result / exception kind are compared with the model and judged by wf_b, the atomicity oracle and the frame / copy oracle.  non-trivial = >= 3 calls, some graph ends up with a node, and some call raised or copied; distinct by the call sequence" % (FILLS, MULS, len(reduced_universe(tier)), len(weights_universe(tier))),
+               exhaustive_part="%d sequences" % n_exh, exhaustive_weights_part="%d histories" % n_wexh,
+               weights_focused_random_sequences=sum(1 for c in cases if c[2].endswith("/weights")), corpus_cases=n_corpus, random_sequences=n_rand,
                random_steps=steps, random_steps_raising=fails, op_histogram=hist, random_length_histogram=lens,
                verdict_code_histogram=code_hist, kernel_reevaluated=nk, harness_crashes=crashes,
                samples=[dict(ops=tolist(c[0]), results=[tolist(r) for r, _ in c[1]]) for c in samp[:2]],
@@ -583,7 +585,7 @@ def replay(path):
 
 MANIFEST = dict(
     level="proof",
-    text="Coq state-machine model of the construction/mutation API of fggs/fggs.py (Graph, FactorGraph, HRG, FGG; step/observe/wf_b) with theorems: well-formedness is an invariant of every call, successful or raising, except successful mutations of a graph that a grammar uses as a rule's rhs (explicit guard; refuted without it: the grammar keeps a reference to the caller's graph); every raising call leaves all objects unchanged (unconditional); a copy is ==, shows exactly what its original shows (label tables, domains, factors, rules) and is frame-independent of it; == is an equivalence that separates objects differing in nodes, edges, ext, rules or start. The model is tied to /repo by running both on the same call sequences (corpus, exhaustive <= 3 calls, random 1-40 calls) and comparing the full observable state and result after every call; the extracted wf_b / atomicity / frame / copy oracles judge every implementation state.",
+    text="Coq state-machine model of the construction/mutation API of fggs/fggs.py (Graph, FactorGraph, HRG, FGG; step/observe/wf_b) with theorems: well-formedness is an invariant of every call, successful or raising, except successful mutations of a graph that a grammar uses as a rule's rhs (explicit guard; refuted without it: the grammar keeps a reference to the caller's graph); every raising call leaves all objects unchanged (unconditional); a copy is ==, shows exactly what its original shows (label tables, domains, factors, rules) and is frame-independent of it, in-place updates of factor weights included (UpdWeights: the copy owns its weights; C16_copy_update_weights); == is an equivalence that separates objects differing in nodes, edges, ext, rules or start. The model is tied to /repo by running both on the same call sequences (corpus, exhaustive <= 3 calls, exhaustive copy / in-place-weight-update histories, random 1-40 calls) and comparing the full observable state and result after every call; the extracted wf_b / atomicity / frame / copy oracles judge every implementation state.",
     note="Trusted: Coq kernel + vm_compute, extraction cross-checked on a sample, the Python executor that maps names and id()s to naturals. One known defect of /repo (rule rhs aliasing) is reported as KNOWN-FINDING through a specific predicate; the six classes repaired in /repo (349378f, 80c0f78, 068b525, 6c89611) are regression-checked: a recurrence is a VIOLATION.",
     technique="Coq proof (state-machine model + invariants) + model/implementation correspondence with verified oracles",
     design_ref="DESIGN.md section 6, C16")
